@@ -22,13 +22,13 @@ func H_C20_forward() {
 	n := c08Arity(op)
 	xs := make([]T, n)
 	for i := range xs {
-		xs[i], _ = operandInState(vrt.Nm("x", i), opShape(), vrt.Concretize(vrt.Int(vrt.Nm("state", i), 0, 1)))
+		xs[i], _ = operandInState(vrt.Nm("x", i), opShapeOf(op, i), vrt.Concretize(vrt.Int(vrt.Nm("state", i), 0, 1)))
 	}
 	// a second, never-used set of the same operands for the real goroutines of the native replay: a
 	// lazily filled cache on an operand is only written by its first use
 	zs := make([]T, n)
 	for i := range zs {
-		zs[i], _ = operandInState(vrt.Nm("x", i), opShape(), vrt.Concretize(vrt.Int(vrt.Nm("state", i), 0, 1)))
+		zs[i], _ = operandInState(vrt.Nm("x", i), opShapeOf(op, i), vrt.Concretize(vrt.Int(vrt.Nm("state", i), 0, 1)))
 	}
 	// "goroutine 1"
 	if n == 1 {
